@@ -54,10 +54,11 @@ CLAIMED["C17"] = ("Proof (deductive, all valid inputs) for the conversions this 
   "ProtocolConfigurationOptions Marshal/UnMarshal: proved (layout per TS 24.008 10.5.6.3 and round trip) for lists of 0..3 units with every identifier, length 0..255 and content, by case split on which units are empty (model of bytes.Buffer / bytes.Reader / binary.Read/Write assumed); longer lists by the BOUNDED stand-in (420 option lists against a TS 24.008 reference, labelled bounded); this copy has no inverse functions for PLMN, S-NSSAI and AMF-ID, so 'undone by its inverse' is decided for IP addresses and DNN only.",
   "DESIGN.md §4 C17")
 
-CLAIMED["C18"] = ("Proof for the command line: stgutg.GetMode returns 1 exactly for an argument vector of length 1, 2 exactly for length 2 with second element \"-t\", 0 otherwise (vectors of length 0..3, all strings symbolic); "
-  "structural obligations (go/types, no solver): the configuration struct has exactly one field per documented key (24 keys transcribed from config.yaml/README) with that yaml tag and the documented kind, and no undocumented field.",
-  "NOT decided: what gopkg.in/yaml.v2 does with a given scalar (reflection-driven, outside the subset), and the data flow from the parsed struct through main() to each procedure parameter (main is not under contract yet). Trusted: govc, go/ssa, go/types.",
-  "DESIGN.md §4 C18")
+CLAIMED["C18"] = ("Proof for the command line: stgutg.GetMode returns 1 exactly for an argument vector of length 1, 2 exactly for length 2 with second element \"-t\", 0 otherwise (vectors of length 0..3, all strings symbolic). "
+  "Proof for the data flow in test mode: in main() every call of ConnectToAmf, ManageNGSetup, CreateUE, RegisterUE, EstablishPDU, ServiceRequest, ReleasePDU and DeregisterUE receives, parameter by parameter, the field of the parsed configuration that the documentation names for it (AMF/STG addresses and ports; gNB id, bit length, name; IMSI, K, OPc, OP; MNC, MCC; SST, SD; GTP address) and the UE index of the loop — call-site obligations of main's contract, for every configuration. "
+  "Conf.GetConfiguration returns what yaml.Unmarshal delivered, unchanged (assumed model of os.ReadFile / yaml.Unmarshal). Structural obligations (go/types, no solver): the configuration struct has exactly one field per documented key (24 keys transcribed from config.yaml/README) with that yaml tag and the documented kind, and no undocumented field.",
+  "NOT decided: what gopkg.in/yaml.v2 does with a given scalar (reflection-driven, outside the subset; leading zeros, escapes), traffic mode of main() (blocks on a channel; XDP packages). Trusted: govc, go/ssa, go/types; the procedures are seen by main through their `returns` case.",
+  "DESIGN.md §I.2 C18")
 
 CLAIMED["C16"] = ("Proof (deductive, all 15-digit initial IMSIs, all indices below 10^4, all credential strings): stgutg.CreateUE returns a UE whose SUPI is \"imsi-\" followed by the 15-digit decimal numeral of IMSI+index, "
   "whose RAN-UE-NGAP-ID is (IMSI+index) mod 10^4, which carries exactly the configured K/OPc/OP and (NEA0, NIA2); GetUESecurityCapability sets exactly the EA/IA bit of the chosen algorithms (TS 24.501 9.11.3.54); "
@@ -144,7 +145,7 @@ CLAIMED["C09"] = ("Proof (deductive, all field values and contents) against a tr
   "for each of 44 message types the encoding of the mandatory part is exactly header (EPD, security header type or PDU session id + PTI, message type) followed by the mandatory fields in table order with the tabulated widths; for each of the 160 (message, optional IE) pairs the IE appears after the mandatory part with the tabulated IEI, a length field of the tabulated width carrying the number of value octets, and the tabulated size for fixed formats; "
   "structural obligations (go/types): every MsgType constant and every <Message><IE>Type constant has the tabulated value, every optional IE of a message struct is in the table of the message and vice versa, every IE value type can carry its tabulated format. Two genuine defects found and repaired in /repo (Requested QoS rules with a one-octet length, Last visited registered TAI with seven value octets).",
   "The tables are transcribed from the standard from memory (no copy of TS 24.501 is available offline); every row agreed with the library except the two repaired defects, which are corroborated inside the library itself (AuthorizedQosRules carries the same IE with two length octets; the accessors of LastVisitedRegisteredTAI use six octets). Optional IEs of the standard that the library does not implement are not listed. "
-  "The ten octets of the mandatory parts that hold two half-octet fields have their own lemmas (which accessor owns which bits), and the messages the emulator sends are proved octet by octet as built by nasTestpacket's constructors (AUTHENTICATION RESPONSE, REGISTRATION REQUEST in both forms, SECURITY MODE COMPLETE, REGISTRATION COMPLETE, SERVICE REQUEST, DEREGISTRATION REQUEST, UL NAS TRANSPORT with PDU SESSION ESTABLISHMENT REQUEST / RELEASE REQUEST / RELEASE COMPLETE) — a third defect found and repaired there (SERVICE REQUEST carried a 5GS mobile identity of type 'no identity'). NOT decided: bit fields inside other IE values (e.g. the dummy IMEISV digits, PTI values); SECURITY PROTECTED 5GS NAS MESSAGE. Same assumed models of bytes.Buffer / encoding/binary as C08.",
+  "The ten octets of the mandatory parts that hold two half-octet fields have their own lemmas (which accessor owns which bits), and the messages the emulator sends are proved octet by octet as built by nasTestpacket's constructors (AUTHENTICATION RESPONSE, REGISTRATION REQUEST in both forms, SECURITY MODE COMPLETE, REGISTRATION COMPLETE, SERVICE REQUEST, DEREGISTRATION REQUEST, UL NAS TRANSPORT with PDU SESSION ESTABLISHMENT REQUEST / RELEASE REQUEST / RELEASE COMPLETE) — a third defect found and repaired there (SERVICE REQUEST carried a 5GS mobile identity of type 'no identity'). Accessor sweep: 533 generated lemmas state, for every single-octet bit-field accessor pair of nasType, what the library's own layout annotation (Row, sBit, len) says — setter places exactly those bits and nothing else, getter reads them; that decides agreement of the code with its layout table, not of the table with the standard. NOT decided: bit fields spanning octets, the values chosen by the constructors for dummy fields (IMEISV digits, PTI), SECURITY PROTECTED 5GS NAS MESSAGE. Same assumed models of bytes.Buffer / encoding/binary as C08.",
   "DESIGN.md §I.2 C09")
 
 PENDING = {
